@@ -163,6 +163,52 @@ for l in LIST:
             chk.violation('socks.auth', f'unauthenticated-peer-routed:{l}/socks4', f'listener {l}: SOCKS4 id {uid!r} routed', {'listener_auth': l, 'userid': uid.hex()})
         if want and not routed:
             chk.violation('socks.auth', f'valid-peer-refused:{l}/socks4', f'listener {l}: SOCKS4 id {uid!r} refused', {'listener_auth': l, 'userid': uid.hex()})
+# ---- the UDP relay of an authenticated association belongs to the host that authenticated: a datagram from another
+#      host that reaches the relay port first (the port number is all it needs) is not forwarded, and does not take
+#      the association away from its owner
+def udp_relay_takeover(listener):
+    uo = UdpOrigin()
+    try:
+        ctrl, r = socks5_connect(ports[listener], '0.0.0.0', 0, methods=(2,), userpass=(b'u', b'p'), cmd=3, timeout=5)
+        if r.get('rep') != 0 or len(r['reply']) < 10:
+            return {'error': f'association refused: {r}'}
+        relay_port = struct.unpack('>H', r['reply'][8:10])[0]
+        hdr = b'\0\0\0' + socks5_addr('127.0.0.1', uo.port)
+        stranger = socket.socket(socket.AF_INET, socket.SOCK_DGRAM); stranger.bind(('127.0.0.2', 0)); stranger.settimeout(1.0)
+        stranger.sendto(hdr + b'from-a-stranger', ('127.0.0.1', relay_port))
+        try:
+            stranger_reply = stranger.recvfrom(2000)[0]
+        except OSError:
+            stranger_reply = None
+        owner = socket.socket(socket.AF_INET, socket.SOCK_DGRAM); owner.bind(('127.0.0.1', 0)); owner.settimeout(1.5)
+        owner_ok = False
+        for _ in range(3):
+            owner.sendto(hdr + b'from-the-owner', ('127.0.0.1', relay_port))
+            try:
+                d, _ = owner.recvfrom(2000)
+                if d.endswith(b'Rfrom-the-owner'):
+                    owner_ok = True
+                    break
+            except OSError:
+                pass
+        time.sleep(0.2)
+        forwarded = uo.count(b'from-a-stranger')
+        ctrl.close(); stranger.close(); owner.close()
+        return {'stranger_datagram_forwarded': forwarded, 'stranger_got_a_reply': stranger_reply is not None, 'owner_served': owner_ok}
+    finally:
+        uo.stop()
+for l in ('users', 'both'):
+    evals += 1
+    r = udp_relay_takeover(l)
+    if 'error' in r:
+        machinery(f'udp relay takeover {l}: {r}')
+    distinct.add(('udp-takeover', l, r['stranger_datagram_forwarded'] > 0, r['owner_served']))
+    if r['stranger_datagram_forwarded'] or r['stranger_got_a_reply']:
+        chk.violation('socks.auth', f'unauthenticated-peer-routed:udp-relay-of-another-clients-association:{l}', f'listener {l} (credentials required): u/p authenticated and opened a UDP association; a datagram from 127.0.0.2, which never authenticated, sent to the relay port first was forwarded ({r})', {'listener': l, 'observed': r})
+    if not r['owner_served']:
+        chk.violation('socks.auth', f'association-taken-from-its-owner:{l}', f'listener {l}: after a stranger sent a datagram to the relay port the authenticated owner of the association was not served ({r})', {'listener': l, 'observed': r})
+    samples.append({'udp_relay_takeover': {'listener': l, **r}})
+
 if not px.alive():
     chk.violation('process', 'proxy-died', f'exit {px.returncode()}: {px.log()[-300:]}', {})
 px.stop()
